@@ -2,8 +2,34 @@
 
 A candidate is accepted only if the *same violation class* (property, kind, site) still fails.
 """
+import os
 import time
 from dsim.core import execute_run
+
+
+def _in_child(fn):
+    """Run fn() in a forked child and return its boolean result: every candidate starts from the same process state, so state
+    that the code under test (or a cached object of the harness) keeps at process level cannot leak from one candidate into the
+    next and produce a 'minimal' trace that only fails after its predecessors."""
+    rfd, wfd = os.pipe()
+    pid = os.fork()
+    if pid == 0:
+        out = b"0"
+        try:
+            os.close(rfd)
+            out = b"1" if fn() else b"0"
+        except BaseException:
+            out = b"0"
+        finally:
+            try:
+                os.write(wfd, out)
+            finally:
+                os._exit(0)
+    os.close(wfd)
+    data = os.read(rfd, 1)
+    os.close(rfd)
+    os.waitpid(pid, 0)
+    return data == b"1"
 
 
 def minimise(world_cls, prop, tier, run_seed, config, trace, key, budget_runs=150, budget_s=120):
@@ -14,8 +40,8 @@ def minimise(world_cls, prop, tier, run_seed, config, trace, key, budget_runs=15
         if n_exec[0] >= budget_runs or time.time() - t0 > budget_s:
             return False
         n_exec[0] += 1
-        r = execute_run(world_cls, prop, tier, run_seed, config=config, trace=tr, target_key=key)
-        return r["verdict"] == "violation"
+        return _in_child(lambda: execute_run(world_cls, prop, tier, run_seed, config=config, trace=tr, target_key=key,
+                                             run_cap_s=300)["verdict"] == "violation")
 
     cur = list(trace)
     if not fails(cur):
